@@ -335,7 +335,12 @@ class Sim:
                     t = await create_task_start(self.run_task(s[2]))
                 elif how[0] == "eager":
                     import asynkit
-                    aw = asynkit.eager(self.run_task(s[2]))
+                    if len(how) > 1 and how[1] == "factory":
+                        # a custom task factory (a plain Python callable creating the Task itself)
+                        aw = asynkit.eager(self.run_task(s[2]),
+                                           task_factory=lambda c: asyncio.get_running_loop().create_task(c, name="custom"))
+                    else:
+                        aw = asynkit.eager(self.run_task(s[2]))
                     env = env + [self.w.fid(aw)]
                     s = s[3]
                     continue
